@@ -13,9 +13,19 @@ Streams (model = lean/JediModel/Model/Call.lean through Drivers/C11.lean)
   helpers      count_positional_arguments / iter_used_keyword_arguments vs model
   kinds        hand-built child lists that are not valid Python (parso recovers) vs `paramNames`
   pybind       `pyBind` (the theorems' Python side) vs real calls of the executed definition
+  pybound      `pyBound` (Python side of bound_eq_pyBound) vs inspect.signature of the bound method /
+               classmethod / class (ValueError = none)
+  forward      wrappers that forward **kwargs (only) to one or two callees (plain / decorator /
+               method layouts, own parameters, arguments given in the forwarding call):
+               Signature.params/.to_string() vs `processParamsKw` + `calleeParams`
+  pyaccepts    `pyAccepts`, `pyRunsKwWrapper`, `kwForwarded` vs real calls
   doc          docstring() vs `docAssemble`
   oracle:*     the property itself on the real code: exec the definition, inspect.signature,
-               re-parse of to_string(), real calls with a sentinel argument, inspect.getdoc
+               re-parse of to_string(), real calls with a sentinel argument, inspect.getdoc;
+               oracle:kwforward = exactly the calls that bind against the reported signature of a
+               pure **kwargs pass-through wrapper run without TypeError (all calls with <= 2+ positional
+               and <= 3 keyword arguments); oracle:wrapper = *args forwarding probe (unjudged in this
+               sandbox: RecursionError without typeshed)
 """
 import inspect
 import itertools
@@ -27,11 +37,17 @@ from common import short
 MODELS = ['Call']
 MANIFEST = dict(
     text='Theorems over the model of _ActualTreeParamName.get_kind, _SignatureMixin.to_string, '
-         'TreeSignature.get_param_names (process_params without forwarding, bound => drop first), '
+         'TreeSignature.get_param_names (process_params without forwarding and with **kwargs forwarded one level, '
+         'bound => _remove_bound_param: drop the first parameter unless it is *args), '
          '_iter_arguments and CallDetails.calculate_index: get_kind = inspect kinds on every valid parameter list '
          '(partial: no `__` names outside the positional-only section; counter-witness kernel-checked), '
          'to_string re-parses to the same parameter list, process_params is the identity on valid lists, '
-         'bound drops exactly the first parameter, calculate_index = CPython call binding for every '
+         'a bound signature equals inspect.signature of the bound object for EVERY valid parameter list that has one '
+         '(bound_eq_pyBound, full: first named parameter removed, leading *args kept), the forwarded signature of a '
+         '**kwargs pass-through wrapper is the wrapped callable\'s keyword-capable parameters as keyword-only ones '
+         '(kwforward_params/kwforward_pure) and accepts exactly the calls that run (kwforward_accepts_iff_partial: '
+         'positional-only parameters of the callee have defaults; kernel-checked counter-witness = known finding), '
+         'calculate_index = CPython call binding for every '
          'well-formed prefix ending in a non-name positional or `name=` argument (partial: hypotheses H1/H2 '
          'with kernel-checked counter-witnesses = known findings F17/F18), exact characterisation of the '
          'remaining cells (bare-name prefix, after *e), docstring assembly. Tie: translator constants + '
@@ -39,8 +55,9 @@ MANIFEST = dict(
          'uses inspect.signature, re-parses to_string(), performs real calls with sentinel arguments, '
          'inspect.getdoc.',
     note='Modelled not verified: parso (the node list handed to _iter_arguments is checked per case), '
-         'inference of the callee (which definition a call resolves to), process_params with forwarding '
-         'wrappers (oracle-only stream), inspect.cleandoc/literal_eval in docstring cleaning (oracle-only).',
+         'inference of the callee (which definition a call resolves to; for forwarding: which calls '
+         '_iter_nodes_for_param finds and what they resolve to - checked per case by stream forward), process_params '
+         'with *args forwarding (RecursionError in this sandbox: empty typeshed; probe stream oracle:wrapper only), inspect.cleandoc/literal_eval in docstring cleaning (oracle-only).',
     technique='Lean 4 proof over hand-written model + translator-generated constants + differential correspondence',
     design='5.C11')
 LEAN_TARGETS = ['JediModel.Props.C11', 'JediModel.Drivers.C11']
@@ -145,7 +162,31 @@ def with_first(sig, name):
     return s
 
 
-CALLABLES = ['function', 'method', 'classmethod', 'staticmethod', 'init', 'unbound']
+CALLABLES = ['function', 'method', 'classmethod', 'staticmethod', 'init', 'unbound',
+             'method_raw', 'classmethod_raw', 'init_raw']
+
+
+def py_bound(sig):
+    """inspect._signature_bound_method on a generator-level signature; None = ValueError"""
+    s = dict(sig)
+    if sig['po']:
+        s['po'] = sig['po'][1:]
+    elif sig['pk']:
+        s['pk'] = sig['pk'][1:]
+    elif sig['vp'] is None:
+        return None
+    return s
+
+
+def raw_sig(sig, rng):
+    """parameter list of a method written without a separate `self`: the first named parameter
+    plays that role, or a leading *args swallows it.  Python must have a bound signature."""
+    s = dict(sig)
+    if s['vp'] is not None and rng.random() < 0.6:
+        s['po'], s['pk'] = [], []
+    if py_bound(s) is None:
+        s['vp'] = P('args')
+    return s
 
 
 def definition(kind, sig, ret, doc=None):
@@ -170,6 +211,16 @@ def definition(kind, sig, ret, doc=None):
         d = with_first(sig, 'self')
         src = 'class C:\n' + ind('def __init__(%s):\n%s' % (sig_text(d), body))
         return src, 'C', 'C', d, True
+    # the *_raw kinds: `sig` is the definition's own parameter list (see raw_sig)
+    if kind == 'method_raw':
+        src = 'class C:\n' + ind('def m(%s)%s:\n%s' % (sig_text(sig), arrow, body))
+        return src, 'C().m', 'm', sig, True
+    if kind == 'classmethod_raw':
+        src = 'class C:\n    @classmethod\n' + ind('def m(%s)%s:\n%s' % (sig_text(sig), arrow, body))
+        return src, 'C.m', 'm', sig, True
+    if kind == 'init_raw':
+        src = 'class C:\n' + ind('def __init__(%s):\n%s' % (sig_text(sig), body))
+        return src, 'C', 'C', sig, True
     raise ValueError(kind)
 
 
@@ -707,11 +758,19 @@ def build_cases(ctx):
             sigs.append(rng.choice(sig_variants(rng.choice(shapes(6)), rng, False)))
         kinds_for = lambda i: CALLABLES
         calls_per = 1
-    for i, sig in enumerate(sigs):
+    for i, sig0 in enumerate(sigs):
         for kind in kinds_for(i):
-            ret = 'int' if (kind != 'init' and rng.random() < 0.25) else ''
+            sig = sig0
+            ret = 'int' if (not kind.startswith('init') and rng.random() < 0.25) else ''
+            feature = 'plain'
+            if kind.endswith('_raw'):
+                sig = raw_sig(sig, rng)
+                names = sig_names(py_bound(sig))
+                if not sig['po'] and not sig['pk']:
+                    feature = 'bound-var-positional-first'
+            else:
+                names = sig_names(sig)
             def_src, callee, fname, dsig, bound = definition(kind, sig, ret)
-            names = sig_names(sig)
             pre = def_src + 'xv = 1\nxs = ()\nkws = {}\n'
             line = pre.count('\n') + 1
             for _ in range(calls_per):
@@ -722,7 +781,7 @@ def build_cases(ctx):
                     cases.append({'kind': kind, 'sig': sig, 'dsig': dsig, 'bound': bound, 'fname': fname,
                                   'ret': ret, 'def_src': def_src, 'callee': callee,
                                   'src': pre + text, 'line': line, 'col': col,
-                                  'prev_specs': prev, 'cur': cur, 'mode': mode})
+                                  'prev_specs': prev, 'cur': cur, 'mode': mode, 'feature': feature})
     return cases
 
 
@@ -807,7 +866,7 @@ def compare_case(ctx, c, m, parsed_defs):
         parsed_defs[dk] = True
         import parso
         mod = parso.parse(c['def_src'])
-        fd = find_funcdef(mod, '__init__' if c['kind'] == 'init' else c['fname'])
+        fd = find_funcdef(mod, '__init__' if c['kind'].startswith('init') else c['fname'])
         try:
             cmp('ptoks', ptoks_of(fd), m['toks'])
         except Unmodelled as e:
@@ -921,6 +980,26 @@ def stream_pybind(ctx, reqs, metas):
         metas.append(('pybind', {'def': 'def f(%s)' % sig_text(sig), 'npos': npos, 'kws': kws, 'cur': list(cur)}, want))
 
 
+# ------------------------------------------------------------------ stream: pybound
+
+def stream_pybound(ctx, reqs, metas):
+    """the Python side of bound_eq_pyBound (`pyBound`) against inspect.signature of the bound object:
+    every shape up to 4 parameters (thorough: 6) as method / classmethod / __init__, no extra self"""
+    rng = ctx.subrng('pybound')
+    for sh in shapes(ctx.size(4, 6)):
+        sig = sig_variants(sh, rng, False)[0]
+        kind = rng.choice(['method_raw', 'classmethod_raw', 'init_raw']) if ctx.quick else None
+        for k in ([kind] if kind else ['method_raw', 'classmethod_raw', 'init_raw']):
+            def_src, callee, _, _, _ = definition(k, sig, '')
+            obj, _ = exec_def(def_src, callee)
+            try:
+                want = [[p.name, int(p.kind)] for p in inspect.signature(obj).parameters.values()]
+            except ValueError:
+                want = None
+            reqs.append({'op': 'pybound', 'sig': sig})
+            metas.append(('pybound', {'source': def_src, 'callee': callee}, want))
+
+
 # ------------------------------------------------------------------ stream: docstrings
 
 DOCS = [
@@ -1029,47 +1108,216 @@ def stream_probes(ctx):
          'prev_specs': [], 'cur': {'t': 'empty'}, 'mode': 'prefix', 'feature': 'dunder-parameter'}
     c['real'] = real_case(c['src'], 2, 2)
     run_oracle(ctx, c, objs)
-    # a bound method whose first parameter is *args: Python keeps *args (self lands in it)
-    for def_src, callee in [('class C:\n    def m(*args, k=1): pass\n', 'C().m'),
-                            ('class C:\n    def __init__(*args, **kw): pass\n', 'C')]:
-        call = callee + '('
+    # a bound method whose first parameter is *args: Python keeps *args (self lands in it).
+    # (formerly the findings C11-bound-star-args-dropped-*; fixed by _remove_bound_param)
+    for def_src, callee, tail, prev, cur in [
+            ('class C:\n    def m(*args, k=1): pass\n', 'C().m', '', [], {'t': 'empty'}),
+            ('class C:\n    def __init__(*args, **kw): pass\n', 'C', '', [], {'t': 'empty'}),
+            ('class C:\n    def m(*args): pass\n', 'C().m', '', [], {'t': 'empty'}),
+            ('class C:\n    @classmethod\n    def m(*args, k=1): pass\n', 'C.m', '', [], {'t': 'empty'}),
+            ('class C:\n    def m(*args, k=1): pass\n', 'C().m', '1, k=', [('pos', '1', None)], {'t': 'kwOpen', 's': 'k'}),
+            ('class C:\n    def m(*args, k=1): pass\n', 'C().m', '1, 2', [('pos', '1', None)], {'t': 'expr'}),
+            ('class C:\n    def __init__(*args, **kw): pass\n', 'C', '1, z=', [('pos', '1', None)], {'t': 'kwOpen', 's': 'z'})]:
+        call = callee + '(' + tail
         c = {'kind': 'method', 'def_src': def_src, 'callee': callee, 'src': def_src + call,
-             'line': def_src.count('\n') + 1, 'col': len(call), 'prev_specs': [], 'cur': {'t': 'empty'},
+             'line': def_src.count('\n') + 1, 'col': len(call), 'prev_specs': prev, 'cur': cur,
              'mode': 'prefix', 'feature': 'bound-var-positional-first'}
         c['real'] = real_case(c['src'], c['line'], c['col'])
         run_oracle(ctx, c, objs)
 
 
-# ------------------------------------------------------------------ stream: forwarding wrappers (oracle only)
+# ------------------------------------------------------------------ stream: forwarding wrappers
 
-def stream_wrappers(ctx):
-    """pure *args/**kwargs pass-through: the reported signature is the wrapped callable's"""
+def stream_star_args_probe(ctx):
+    """`*args` forwarding (`def wrapper(*args, **kwargs): return f(*args, **kwargs)`): in this sandbox
+    (empty typeshed) TreeArguments.unpack -> _iterate_star_args -> `array.py__getattribute__('__iter__')`
+    on the tuple instance recurses in klass.get_filters (RecursionError), so the shape cannot be
+    judged here.  Kept as a probe: where it does answer, the parameters must be the wrapped ones."""
     rng = ctx.subrng('wrap')
-    n = ctx.size(2, 6)   # sandbox: no typeshed -> *args unpacking recurses (RecursionError); kept as a probe
-    objs = {}
-    for _ in range(n):
+    for i in range(ctx.size(2, 6)):
         sh = rng.choice([s for s in shapes(3)])
         sig = rng.choice(sig_variants(sh, rng, False))
-        # defaults/annotations of the wrapped function are shown as they are
-        def_src = 'def inner(%s):\n    pass\ndef f(*args, **kwargs):\n    return inner(*args, **kwargs)\n' % sig_text(sig)
-        src = def_src + 'f('
-        c = {'kind': 'wrapper', 'def_src': def_src, 'callee': 'f', 'src': src, 'line': src.count('\n') + 1,
-             'col': 2, 'prev_specs': [], 'cur': {'t': 'empty'}, 'mode': 'prefix', 'feature': 'wrapper'}
-        real = real_case(src, c['line'], 2)
+        if i % 2:
+            def_src = ('def deco(g):\n    def wrapper(*args, **kwargs):\n        return g(*args, **kwargs)\n'
+                       '    return wrapper\n@deco\ndef inner(%s):\n    pass\n' % sig_text(sig))
+            callee = 'inner'
+        else:
+            def_src = 'def inner(%s):\n    pass\ndef f(*args, **kwargs):\n    return inner(*args, **kwargs)\n' % sig_text(sig)
+            callee = 'f'
+        src = def_src + callee + '('
+        real = real_case(src, src.count('\n') + 1, len(callee) + 1)
         if 'exc' in real or real.get('nsigs') != 1:
             ctx.count('oracle:wrapper', src, nontrivial=False,
                       bucket='unjudged: %s@%s' % (real.get('exc'), real.get('site')) if 'exc' in real else 'no-signature')
             continue
-        obj, g = exec_def(def_src, 'inner')
-        pysig, pyparams = py_params(obj)
+        g = {}
+        exec('def inner(%s):\n    pass\n' % sig_text(sig), g)
+        pysig, pyparams = py_params(g['inner'])
         got = [(p['name'], p['kind']) for p in real['params']]
         ctx.count('oracle:wrapper', src, nontrivial=bool(pyparams), bucket='n=%d' % len(pyparams))
         if got != pyparams:
             ctx.fail('oracle:wrapper', 'pass-through wrapper does not report the wrapped callable\'s parameters',
-                     {'source': def_src, 'callee': 'f', 'feature': 'wrapper'},
+                     {'source': def_src, 'callee': callee, 'feature': 'wrapper'},
                      expected=[[n_, KIND_NAMES[k]] for n_, k in pyparams],
                      observed=[[n_, KIND_NAMES[k]] for n_, k in got],
-                     how='jedi.Script(source + "f(").get_signatures()[0].params vs inspect.signature(inner)')
+                     how='jedi.Script(source + callee + "(").get_signatures()[0].params vs inspect.signature(inner)')
+
+
+OWN_PARAMS = [
+    # (po, pk, vp, ko) of the wrapper itself, names disjoint from NAME_POOL
+    ([], [], None, []), ([], [], None, []), ([], [], None, []),
+    ([], ['x'], None, []), (['x'], [], None, []), ([], [], None, ['y']), ([], ['x'], None, ['y']),
+    ([], ['x'], 'rest', []), ([], [], 'rest', []), (['x'], ['z'], None, ['y']),
+]
+
+
+def gen_forward(rng):
+    """one wrapper program that forwards **kwargs (only) -> dict"""
+    inner = rng.choice(sig_variants(rng.choice(shapes(4)), rng, False))
+    if rng.random() < 0.75:
+        # mostly callees that a keyword-only call can satisfy (see finding C11-kwforward-required-positional-only)
+        while any(p['dflt'] is None for p in inner['po']):
+            inner = rng.choice(sig_variants(rng.choice(shapes(4)), rng, False))
+    po, pk, vp, ko = rng.choice(OWN_PARAMS)
+    kwname = rng.choice(['kwargs', 'kw'])
+    own = {'po': [P(n) for n in po], 'pk': [P(n) for n in pk], 'vp': P(vp) if vp else None,
+           'ko': [P(n, dflt='1') if rng.random() < 0.5 else P(n) for n in ko], 'vk': P(kwname)}
+    count = rng.choice([0, 0, 0, 0, 1, 1, 2])
+    inner_names = sig_names(inner)
+    keys = []
+    if rng.random() < 0.3:
+        keys = rng.sample(inner_names + ['zz'], 1)
+    given = ['1'] * count + ['%s=2' % k for k in keys]
+    fwd = ', '.join(given + ['**' + kwname])
+    layout = rng.choice(['plain', 'plain', 'deco', 'method', 'two'])
+    second = None
+    ind = lambda t: ''.join('    ' + l + '\n' for l in t.rstrip('\n').split('\n'))
+    if layout == 'plain':
+        src = 'def inner(%s):\n    pass\ndef f(%s):\n    return inner(%s)\n' % (sig_text(inner), sig_text(own), fwd)
+        callee, fname, bound, dinner, douter = 'f', 'f', False, inner, own
+    elif layout == 'deco':
+        src = ('def deco(g):\n    def wrapper(%s):\n        return g(%s)\n    return wrapper\n'
+               '@deco\ndef inner(%s):\n    pass\n' % (sig_text(own), fwd, sig_text(inner)))
+        callee, fname, bound, dinner, douter = 'inner', 'wrapper', False, inner, own
+    elif layout == 'method':
+        dinner, douter = with_first(inner, 'self'), with_first(own, 'self')
+        src = 'class C:\n' + ind('def inner(%s):\n    pass\ndef f(%s):\n    return self.inner(%s)\n'
+                                 % (sig_text(dinner), sig_text(douter), fwd))
+        callee, fname, bound = 'C().f', 'f', True
+    else:
+        second = rng.choice(sig_variants(rng.choice(shapes(3)), rng, False))
+        src = ('def inner(%s):\n    pass\ndef other(%s):\n    pass\ndef f(%s):\n    if 1:\n        return inner(%s)\n'
+               '    return other(**%s)\n' % (sig_text(inner), sig_text(second), sig_text(own), fwd, kwname))
+        callee, fname, bound, dinner, douter = 'f', 'f', False, inner, own
+    callees = [{'sig': dinner, 'bound': bound, 'count': count, 'keys': keys}]
+    if second is not None:
+        callees.append({'sig': second, 'bound': False, 'count': 0, 'keys': []})
+    pure = second is None and not given
+    return {'src': src, 'callee': callee, 'fname': fname, 'bound': bound, 'outer': douter, 'callees': callees,
+            'inner': inner, 'own': own, 'layout': layout, 'pure': pure,
+            'own_plain': not (po or pk or vp or ko)}
+
+
+def oracle_kwforward(ctx, w, real):
+    """exactly the calls that bind against the reported signature run without TypeError
+    (bodies are `pass` / a single forwarding call: a TypeError can only come from argument binding)"""
+    obj, _ = exec_def(w['src'], w['callee'])
+    case = {'source': w['src'], 'callee': w['callee'],
+            'feature': 'kwforward-required-positional-only'
+            if any(p['dflt'] is None for p in w['inner']['po']) else 'kwforward'}
+    how = ('reported = jedi.Script(source + callee + "(").get_signatures()[0].to_string(); for every call of '
+           'up to 2 positional and 3 keyword arguments: inspect.Signature.bind on the re-parsed reported '
+           'signature vs really calling the executed wrapper')
+    ctx.count('oracle:kwforward', (w['src'], w['callee']), nontrivial=True,
+              bucket='%s/%s' % (w['layout'], 'pure' if w['own_plain'] else 'own-params'),
+              sample={'source': w['src'], 'callee': w['callee'], 'to_string': real['to_string']})
+    try:
+        rsig = sig_from_text(real['to_string'])
+    except Exception as e:  # noqa
+        ctx.fail('oracle:kwforward', 'to_string() of the forwarded signature does not parse', case,
+                 observed={'to_string': real['to_string'], 'error': repr(e)}, how=how)
+        return
+    names = list(dict.fromkeys([p['name'] for p in real['params']] + sig_names(w['inner']) +
+                               sig_names(w['own'])[:-1] + ['zz']))
+    npos_max = len(w['own']['po']) + len(w['own']['pk']) + 1
+    for npos in range(npos_max + 1):
+        for r in range(0, 4):
+            for kws in itertools.combinations(names, r):
+                kw = {k: 0 for k in kws}
+                try:
+                    rsig.bind(*([0] * npos), **kw)
+                    binds = True
+                except TypeError:
+                    binds = False
+                try:
+                    obj(*([0] * npos), **kw)
+                    runs = True
+                except TypeError:
+                    runs = False
+                if binds != runs:
+                    ctx.fail('oracle:kwforward',
+                             'a call binds against the reported signature but raises TypeError (or the reverse)',
+                             case, expected={'runs': runs},
+                             observed={'to_string': real['to_string'], 'call': {'positional': npos, 'keywords': list(kws)},
+                                       'binds_reported': binds, 'runs': runs}, how=how)
+                    return
+
+
+def stream_forward(ctx, reqs, metas):
+    """wrappers that forward **kwargs (only): correspondence with `processParamsKw` for every
+    generated program, direct oracle for the pure pass-through ones"""
+    rng = ctx.subrng('forward')
+    seen = set()
+    for _ in range(ctx.size(140, 2500)):
+        w = gen_forward(rng)
+        if w['src'] in seen:
+            continue
+        seen.add(w['src'])
+        src = w['src'] + w['callee'] + '('
+        real = real_case(src, src.count('\n') + 1, len(w['callee']) + 1)
+        if 'exc' in real or real.get('nsigs') != 1:
+            ctx.count('raised' if 'exc' in real else 'oracle:reported', src, nontrivial=False,
+                      bucket='forward: %s@%s' % (real.get('exc'), real.get('site')) if 'exc' in real else 'forward: no signature')
+            ctx.fail('oracle:kwforward', 'no single signature for a **kwargs forwarding wrapper',
+                     {'source': w['src'], 'callee': w['callee'], 'feature': 'kwforward'}, observed=real,
+                     how='jedi.Script(source + callee + "(").get_signatures()')
+            continue
+        reqs.append({'op': 'fwd', 'outer': w['outer'], 'bound': w['bound'], 'callees': w['callees'],
+                     'fname': w['fname'], 'ret': ''})
+        metas.append(('fwd', {'source': w['src'], 'callee': w['callee'], 'layout': w['layout'],
+                              'given': [w['callees'][0]['count'], w['callees'][0]['keys']]}, (real, w)))
+        if w['pure']:
+            oracle_kwforward(ctx, w, real)
+
+
+def stream_pyaccepts(ctx, reqs, metas):
+    """`pyAccepts`, `pyRunsKwWrapper`, `kwForwarded` (the Python side of kwforward_accepts_iff_partial)
+    against real calls of the definition, of a real **kwargs wrapper around it, and of a definition
+    with the forwarded parameter list"""
+    rng = ctx.subrng('pyaccepts')
+    shs = shapes(4)
+    for _ in range(ctx.size(400, 10000)):
+        sig = rng.choice(sig_variants(rng.choice(shs), rng, False))
+        names = sig_names(sig)
+        obj, _ = exec_def('def f(%s): pass\n' % sig_text(sig), 'f')
+        npos = rng.choice([0, 0, 0, 1, 2, 3, 4])
+        required = [p['name'] for p in sig['pk'] + sig['ko'] if p['dflt'] is None]
+        pool = names + ['zz']
+        kws = [k for k in pool if rng.random() < 0.35]
+        if rng.random() < 0.5:
+            kws = list(dict.fromkeys(kws + required))
+        wrap, _ = exec_def('def g(%s): pass\ndef f(**kwargs):\n    return g(**kwargs)\n' % sig_text(sig), 'f')
+        fw = {'po': [], 'pk': [], 'vp': None, 'ko': sig['pk'] + sig['ko'], 'vk': sig['vk']}
+        fobj, _ = exec_def('def f(%s): pass\n' % sig_text(fw), 'f')
+        want = {}
+        for key, o in (('accepts', obj), ('wrapper_runs', wrap), ('forwarded_accepts', fobj)):
+            try:
+                o(*([0] * npos), **{k: 0 for k in kws})
+                want[key] = True
+            except TypeError:
+                want[key] = False
+        reqs.append({'op': 'pyaccepts', 'sig': sig, 'npos': npos, 'kws': kws})
+        metas.append(('pyaccepts', {'def': 'def f(%s)' % sig_text(sig), 'npos': npos, 'kws': kws}, want))
 
 
 # ------------------------------------------------------------------ driver
@@ -1090,21 +1338,24 @@ def run(ctx):
     run_corpus(ctx, cases)
     cases += build_cases(ctx)
     cases = dedupe(cases)
-    if ctx.quick and len(cases) > 2400:
+    if ctx.quick and len(cases) > 1700:
         rng = ctx.subrng('trim')
         corpus_n = sum(1 for c in cases if c.get('corpus'))
-        cases = cases[:corpus_n] + rng.sample(cases[corpus_n:], 2400 - corpus_n)
+        cases = cases[:corpus_n] + rng.sample(cases[corpus_n:], 1700 - corpus_n)
     run_real(cases, jobs=1 if ctx.quick else 12)
     reqs = [request_of(c) for c in cases]
     metas = [('case', c, None) for c in cases]
     stream_kinds(ctx, reqs, metas)
     stream_pybind(ctx, reqs, metas)
+    stream_pybound(ctx, reqs, metas)
     stream_docs(ctx, reqs, metas)
     objs = {}
     for c in cases:
         run_oracle(ctx, c, objs)
     stream_probes(ctx)
-    stream_wrappers(ctx)
+    stream_star_args_probe(ctx)
+    stream_forward(ctx, reqs, metas)
+    stream_pyaccepts(ctx, reqs, metas)
     if ctx.model_ok:
         answers = common.run_driver_parallel('C11', reqs)
         parsed_defs = {}
@@ -1127,6 +1378,30 @@ def run(ctx):
                 if ans != extra:
                     # the model of CPython is wrong: our machinery, not jedi
                     raise common.InfraError('pyBind disagrees with CPython: %r model=%r cpython=%r' % (meta, ans, extra))
+            elif stream == 'fwd':
+                real, w = extra
+                ctx.count('forward', meta['source'], nontrivial=True,
+                          bucket='%s/given=%s' % (meta['layout'], 'yes' if (meta['given'][0] or meta['given'][1]) else 'no'),
+                          sample={'case': meta, 'impl': real['to_string']})
+                if real['params'] != ans['params'] or real['to_string'] != ans['to_string']:
+                    ctx.tie_broken('correspondence:forward',
+                                   short({'case': meta, 'impl': [real['params'], real['to_string']], 'model': ans}, 1500))
+                    if not w['pure']:
+                        # failing-input search: the property's criterion on this very program
+                        oracle_kwforward(ctx, w, real)
+            elif stream == 'pyaccepts':
+                ctx.count('pyaccepts', json.dumps(meta, sort_keys=True), nontrivial=True,
+                          bucket='npos=%d/%s' % (meta['npos'], 'accepted' if extra['accepts'] else 'TypeError'),
+                          sample={'case': meta, 'cpython': extra})
+                if ans != extra:
+                    raise common.InfraError('pyAccepts disagrees with CPython: %r model=%r cpython=%r' % (meta, ans, extra))
+            elif stream == 'pybound':
+                ctx.count('pybound', json.dumps(meta, sort_keys=True), nontrivial=True,
+                          bucket='no-signature' if extra is None else 'n=%d' % len(extra),
+                          sample={'case': meta, 'inspect': extra})
+                if ans != extra:
+                    raise common.InfraError('pyBound disagrees with inspect.signature of the bound object: '
+                                            '%r model=%r inspect=%r' % (meta, ans, extra))
             elif stream == 'doc':
                 ctx.count('doc', json.dumps(meta, sort_keys=True), nontrivial=True, bucket=meta['feature'])
                 if ans != extra:
@@ -1139,8 +1414,12 @@ def run(ctx):
         '`nodesOf` against the real tree for every case) and the children of `parameters` (stream ptoks)',
         'callee inference: which definition the call resolves to, that methods reached through an instance / '
         'classmethods / classes are reported with is_bound=True (checked per case by streams params and oracle:params)',
-        'process_params is modelled for bodies that do not forward *args/**kwargs; forwarding wrappers are '
-        'checked by the direct oracle only (stream oracle:wrapper)',
+        'process_params is modelled for bodies that forward nothing and for bodies that forward **kwargs (only) to '
+        'callees that forward nothing themselves (stream forward: which calls are found and what they resolve to is '
+        'taken from the generator, the resulting parameter list is compared per case); *args forwarding cannot run in '
+        'this sandbox (TreeArguments.unpack of `*args` needs the builtins stubs: RecursionError) - probe only',
+        'CPython acceptance of a call enters kwforward_accepts_iff_partial as `pyAccepts` / `pyRunsKwWrapper`; '
+        'stream pyaccepts compares them with real calls; `pyBound` with inspect.signature (stream pybound)',
         'docstring cleaning (ast.literal_eval, inspect.cleandoc) is CPython code: oracle only (stream oracle:doc)',
         'single-line calls: `position[1] - name.start_pos[1]` is modelled as a natural number (cut)',
         'CPython call binding enters the theorems as `pyBind`; stream pybind compares it with real calls',
